@@ -306,7 +306,8 @@ def evaluate(chk, c, name_answers, lit_answers, results):
             if kind == "eval" and a != str(val):
                 viol("input", "an integer literal of the generated header is ill-formed C++ or does not denote its value",
                      val, {"literal": text, "denotes": a})
-            if kind == "render" and not a.startswith(text + " = "):
+            if kind == "render" and not a.startswith(text + " = ") and not getattr(c, "render_reported", False):
+                c.render_reported = True        # one report per module is enough
                 viol("correspondence", "_render_integer vs Emboss.CppInt.renderInteger", a, text, found=False)
         if c.lit_unparsed:
             viol("correspondence", "integer literals not of the form _render_integer emits", 0, c.lit_unparsed, found=False)
@@ -510,10 +511,15 @@ def _run(tier):
     for c in prepared:
         if c.label.startswith("gen") and c.status == "ok":
             chk.sample({"emb": c.files["m.emb"][:500], "instantiated": c.stats}, limit=2)
+    if not chk.cov["samples"]:
+        for c in prepared:
+            if c.status == "ok":
+                chk.sample({"module": c.label, "instantiated": getattr(c, "stats", None)})
+                break
     accepted = sum(1 for c in prepared if c.status == "ok")
     chk.cov["programs"] = accepted
     chk.cov["disagreements_checked"] = len(chk.violations) + len(chk.known_printed)
-    return chk.finish(level="proof")
+    return chk.finish(level="translation_validation")
 
 
 def replay(path):
